@@ -1,9 +1,12 @@
 #!/bin/bash
 # Applies every seeded change under /verif/seeded to /repo in turn, runs the quick check of its own
 # property, reverts, and prints one line per change (CAUGHT / MISSED + rules).  ~1 min per change.
-cd /repo || exit 9
+# MATRIX_REPO=<scratch worktree of /repo> keeps /repo itself untouched (the checks then read that tree).
+R=${MATRIX_REPO:-/repo}
+if [ "$R" != /repo ]; then export TDGLSIM_REPO=$R; fi
+cd $R || exit 9
 if ! git diff --quiet; then echo "REPO DIRTY"; exit 9; fi
-for d in /verif/seeded/*/; do
+for d in /verif/seeded/*${ONLY:-}*/; do
   name=$(basename $d); prop=${name%%-*}
   git apply --check $d/patch.diff 2>/dev/null || { echo "$name PATCH-DOES-NOT-APPLY"; continue; }
   git apply $d/patch.diff
